@@ -68,6 +68,13 @@ ProbeRules(e) ==
           \o (IF \E i \in 1..Len(e.rawreads) : e.rawreads[i].h # e.rawreads[i].logged /\ e.rawreads[i].addr # e.inostart
               THEN <<"C01,C04:start-up-reads-a-block-around-the-recovered-log">> ELSE <<>>)
 
+(* crash image of a concurrent history (the tree is matched by NfsLin; here: recovery works, structure, start-up reads) *)
+ProbeStruct(e) ==
+  IF ~e.ok THEN <<"C01:recovery-failed">>
+  ELSE FS!StructRules(e.snap)
+       \o (IF \E i \in 1..Len(e.rawreads) : e.rawreads[i].h # e.rawreads[i].logged /\ e.rawreads[i].addr # e.inostart
+           THEN <<"C01,C04:start-up-reads-a-block-around-the-recovered-log">> ELSE <<>>)
+
 (* crash in a continuation segment: the state becomes a durable-or-later prefix, possibly *)
 (* including the call that was in flight, bound from the dump                              *)
 RecoverCrash(e) ==
@@ -121,6 +128,9 @@ Consume ==
                             ELSE Report(l, v, e) /\ UNCHANGED <<s, bad>>   \* the abstract state is still in step: go on
                     [] e.ev = "crashprobe" ->
                          LET v == ProbeRules(e) IN
+                         IF v = <<>> THEN UNCHANGED <<s, bad>> ELSE Report(l, v, e) /\ UNCHANGED <<s, bad>>
+                    [] e.ev = "crashstruct" ->
+                         LET v == ProbeStruct(e) IN
                          IF v = <<>> THEN UNCHANGED <<s, bad>> ELSE Report(l, v, e) /\ UNCHANGED <<s, bad>>
                     [] e.ev = "crash" ->
                          LET v == FS!StructRules(e.snap) IN
